@@ -31,6 +31,7 @@ import (
 	"fmt"
 	"go/ast"
 	"go/parser"
+	"go/printer"
 	"go/token"
 	"go/types"
 	"os"
@@ -44,14 +45,23 @@ import (
 //go:embed baseline_funcs.txt
 var baselineFuncsTxt string
 
-var baselineFuncs = func() map[string]bool {
+// baselineFuncs: the functions of the reference tree; baselineParams: their receiver and
+// parameter names with types ("name type"), in order. The names are those the rules and their
+// messages use ("param:data"); a parameter that was merely renamed is still described by its
+// reference name as long as the signature's types are unchanged (values.go, describe).
+var baselineFuncs, baselineParams = func() (map[string]bool, map[string][]string) {
 	m := map[string]bool{}
+	ps := map[string][]string{}
 	for _, l := range strings.Split(baselineFuncsTxt, "\n") {
 		if l = strings.TrimSpace(l); l != "" && !strings.HasPrefix(l, "#") {
-			m[l] = true
+			key, rest, _ := strings.Cut(l, "\t")
+			m[key] = true
+			if rest != "" {
+				ps[key] = strings.Split(rest, "|")
+			}
 		}
 	}
-	return m
+	return m, ps
 }()
 
 func recvTypeName(e ast.Expr) string {
@@ -1009,7 +1019,46 @@ func dumpFuncs(repo string) {
 		}
 		for _, d := range f.Decls {
 			if fd, ok := d.(*ast.FuncDecl); ok {
-				keys = append(keys, funcKey(pkg, fd))
+				var ps []string
+				add := func(fl *ast.FieldList) {
+					if fl == nil {
+						return
+					}
+					for _, fld := range fl.List {
+						var tb strings.Builder
+						printer.Fprint(&tb, fset, fld.Type)
+						if len(fld.Names) == 0 {
+							ps = append(ps, "_ "+tb.String())
+						}
+						for _, n := range fld.Names {
+							ps = append(ps, n.Name+" "+tb.String())
+						}
+					}
+				}
+				add(fd.Recv)
+				add(fd.Type.Params)
+				keys = append(keys, funcKey(pkg, fd)+"\t"+strings.Join(ps, "|"))
+				// function literals, numbered like go/ssa's anonymous functions (f$1, f$1$2, …)
+				var lits func(n ast.Node, prefix string)
+				lits = func(n ast.Node, prefix string) {
+					k := 0
+					ast.Inspect(n, func(m ast.Node) bool {
+						fl, ok := m.(*ast.FuncLit)
+						if !ok || m == n {
+							return true
+						}
+						k++
+						name := fmt.Sprintf("%s$%d", prefix, k)
+						ps = nil
+						add(fl.Type.Params)
+						keys = append(keys, name+"\t"+strings.Join(ps, "|"))
+						lits(fl, name)
+						return false
+					})
+				}
+				if fd.Body != nil {
+					lits(fd.Body, funcKey(pkg, fd))
+				}
 			}
 		}
 		return nil
